@@ -6,6 +6,8 @@
 import Ladybug.DrvCore
 import Ladybug.Model.Dome
 import Ladybug.Model.Proj
+import Ladybug.Model.DomeObj
+import Ladybug.Gen.CompassSetters
 
 open Drv
 
@@ -111,6 +113,119 @@ def showContent : Option Dome.Content → String
      | .sphereMesh n => s!"sphere_mesh:{n}:0"
      | .solid b => s!"solid_angles:{if b then 2 else 1}:0") ++ ":" ++ showCount c
 
+
+/-! ### Histories on one object (round 3) -/
+
+/-- Calls of the plain methods as they appear in a history. `badType fn` = an argument of a type the
+method cannot use (float / Fraction / str / None / list division count …): the code raises TypeError. -/
+inductive Call where
+  | rows (n : Int)
+  | dome (n : Int) (ip : Bool)
+  | sphere (n : Int) (ip : Bool)
+  | weights (n : Int) (ip : Bool)
+  | sweights (n : Int) (ip : Bool)
+  | offset (x : Float) (n : Int) (ip : Bool)
+  | offsetw (x : Float) (n : Int) (ip : Bool)
+  | radial (az alt : Nat)
+  | radialw (az alt : Nat)
+  | badType
+
+def errName : Dome.Err → String
+  | .index => "index"
+  | .zero => "zero"
+  | .assert => "assert"
+  | .value => "value"
+
+def shapeAns (r : Except Dome.Err Dome.MeshShape) : Except String String :=
+  match r with
+  | .error e => .error (errName e)
+  | .ok m => .ok s!"shape:{m.vertexCount}:{m.faces.length}:{m.vectorCount}"
+
+def weightsLen (n : Int) (ip : Bool) (twice : Bool) : Except String String :=
+  let rows := Dome.rowCounts n
+  let den := Dome.areaAngleDen rows.length n ip
+  if den = 0 then .error "zero" else
+  let w := Dome.domeWeights twoPi (sinSeq (pi / Float.ofInt den) rows.length) rows
+  .ok s!"len:{if twice then 2 * w.length else w.length}"
+
+/-- The pure answers of the plain methods (summaries: sizes and error classes; the numbers themselves are
+compared by the single-call ops above and, inside histories, with the answer of a fresh object). -/
+def ans : Call → Except String String
+  | .rows n => let r := Dome.rowCounts n; .ok s!"rows:{r.length}:{r.sum}"
+  | .dome n ip => shapeAns (Dome.shapeAns (.dome n ip))
+  | .sphere n ip => shapeAns (Dome.shapeAns (.sphere n ip))
+  | .weights n ip => weightsLen n ip false
+  | .sweights n ip => weightsLen n ip true
+  | .offset x n ip =>
+    match offsetCount x n ip, Dome.domeShape n ip with
+    | .error e, _ => .error (errName e)
+    | _, .error e => .error (errName e)
+    | .ok k, .ok _ => if k = 0 then .error "assert" else .ok s!"band:{2 * k}:{2 * k}"
+  | .offsetw x n ip =>
+    match areasF n ip with
+    | none => .error "zero"
+    | some (_, rows) =>
+      match offsetCount x n ip with
+      | .error e => .error (errName e)
+      | .ok k =>
+        let den := Dome.areaAngleDen rows.length n ip
+        let rel := (Dome.patchAreas twoPi (sinSeq (pi / Float.ofInt den) rows.length) rows).take k
+        if rel.length = 0 then .error "zero" else .ok s!"len:{2 * rel.length}"
+  | .radial az alt => shapeAns (Dome.shapeAns (.radial az alt))
+  | .radialw az alt => if alt = 0 ∨ az = 0 then .error "zero" else .ok s!"len:{az * alt}"
+  | .badType => .error "type"
+
+def histOp? (tok : String) : Option (Dome.Op Call) :=
+  match tok.splitOn ":" with
+  | ["read", p] => (lazyProp? p).map .read
+  | ["scribble"] => some .scribble
+  | ["renew"] => some .renew
+  | ["bad", _] => some (.call .badType)
+  | ["rows", n] => n.toInt?.map fun n => .call (.rows n)
+  | ["dome", n, ip] => do some (.call (.dome (← n.toInt?) (← bool? ip)))
+  | ["sphere", n, ip] => do some (.call (.sphere (← n.toInt?) (← bool? ip)))
+  | ["weights", n, ip] => do some (.call (.weights (← n.toInt?) (← bool? ip)))
+  | ["sweights", n, ip] => do some (.call (.sweights (← n.toInt?) (← bool? ip)))
+  | ["offset", x, n, ip] => do some (.call (.offset (← floatBits? x) (← n.toInt?) (← bool? ip)))
+  | ["offsetw", x, n, ip] => do some (.call (.offsetw (← floatBits? x) (← n.toInt?) (← bool? ip)))
+  | ["radial", az, alt] => do some (.call (.radial (← az.toNat?) (← alt.toNat?)))
+  | ["radialw", az, alt] => do some (.call (.radialw (← az.toNat?) (← alt.toNat?)))
+  | _ => none
+
+def showOut : Dome.Out String String → String
+  | .content c => showContent c
+  | .result r => r
+  | .refused e => "err:" ++ e
+  | .unit => "unit"
+
+/-- `math.radians(a)` = `a * (pi / 180)`; the tabulated `Compass.ALTITUDES`. -/
+def compassAlts : List (Float × Float) :=
+  Gen.Compass.altitudes.map fun a =>
+    let r := Float.ofNat a * (pi / 180.0); (Float.cos r, Float.sin r)
+
+/-- The Compass step with the setter order the translator found in compass.py. -/
+def compassStep : CompassObj.St Float → CompassObj.Op Float → CompassObj.St Float × CompassObj.Out Float :=
+  CompassObj.stepCfg Gen.Compass.radiusValidatesFirst Gen.Compass.spacingValidatesFirst compassAlts
+
+def compassOp? (tok : String) : Option (CompassObj.Op Float) :=
+  match tok.splitOn ":" with
+  | ["setr", v] => (floatBits? v).map .setRadius
+  | ["setr_text"] => some .setRadiusText
+  | ["sets", v] => (floatBits? v).map .setSpacing
+  | ["setc", x, y] => do some (.setCenter (← floatBits? x) (← floatBits? y))
+  | ["setc_other"] => some .setCenterOther
+  | ["reads"] => some .readStereo
+  | ["reado"] => some .readOrtho
+  | ["dup"] => some .duplicate
+  | _ => none
+
+def showCompassOut : CompassObj.Out Float → String
+  | .done => "done"
+  | .refused .assert => "err:assert"
+  | .refused .value => "err:value"
+  | .circles cx cy radii =>
+    s!"circles:{showFloatBits cx}:{showFloatBits cy}:" ++ ",".intercalate (radii.map showFloatBits)
+
 def floats? (l : List String) : Option (List Float) := l.mapM floatBits?
 
 def handle (toks : List String) : String :=
@@ -204,6 +319,16 @@ def handle (toks : List String) : String :=
     match seq.mapM bool? with
     | some bs => "ok " ++ joinSp ((Dome.readSeq {} bs).map showTable)
     | none => "bad-op"
+  | "hist" :: toks =>
+    match toks.mapM histOp? with
+    | some ops => "ok " ++ joinSp ((Dome.runOuts ans Dome.LState.empty ops).map showOut)
+    | none => "bad-op"
+  | "chist" :: r0 :: cx0 :: cy0 :: toks =>
+    match floatBits? r0, floatBits? cx0, floatBits? cy0, toks.mapM compassOp? with
+    | some r, some cx, some cy, some ops =>
+      let st : CompassObj.St Float := ⟨r, cx, cy, 0.0, 0.15⟩
+      "ok " ++ joinSp ((CompassObj.runOuts compassStep st ops).map showCompassOut)
+    | _, _, _, _ => "bad-op"
   | "ortho" :: rest =>
     match floats? rest with
     | some [x, y, z] => let p := Proj.ortho x y z; "ok " ++ showFloats [p.1, p.2]
